@@ -6,7 +6,8 @@
      <family>_sampler_params  : mean and variance of the sampled law are the mean and variance
                                 of the family in Polar's own parameterisation ([polar_mean_var],
                                 tied to get_moment(1), get_moment(2) by the correspondence check)
-   and  truncnormal_sampler_refuted : TruncNormal.sample leaves [a, b].
+   incl. TruncNormal (standardised bounds); truncnormal_sampler_old_rule_refuted : the rule before the
+   repair (unstandardised bounds) leaves [a, b].
 
    Trusted: the table of scipy's standard families in SimulatorSamplerBase.v. *)
 From Coq Require Import List String QArith Qcanon ZArith Bool Field Lia.
@@ -231,28 +232,7 @@ Section Samplers.
   Qed.
 End Samplers.
 
-(* ---- TruncNormal: the descriptor read from the code leaves the declared support ---- *)
-Definition tn_env (x : string) : Qc :=
-  if String.eqb x "mu" then mkq 10 1 else if String.eqb x "sigma2" then 1
-  else if String.eqb x "a" then mkq 9 1 else if String.eqb x "b" then mkq 11 1 else 0.
-Definition tn_sq (x : Qc) : Qc := x.      (* sqrt 1 = 1 is the only value used *)
-
-(* TruncNormal(10, 1, 9, 11): scipy's truncnorm.rvs(9, 11, loc=10, scale=1) has standardised
-   bounds 9 and 11, i.e. samples in [19, 21]; the standard variate z = 9 is admissible and
-   gives 19, outside get_support() = [9, 11]. *)
-Theorem truncnormal_sampler_refuted :
-  exists (sq : Qc -> Qc) (env : string -> Qc) (envl : string -> list Qc) (z : Qc),
-    sq (env "sigma2") * sq (env "sigma2") = env "sigma2" /\ env "a" < env "b" /\
-    desc_std_supp sq env truncnormal_sample z /\
-    ~ in_supp sq env envl truncnormal_support (realise sq env truncnormal_sample z).
-Proof.
-  exists tn_sq, tn_env, (fun _ => []), (mkq 9 1). split; [reflexivity|]. split; [reflexivity|]. split.
-  - unfold truncnormal_sample, desc_std_supp. cbn [map xeval]. rewrite std_supp_truncnorm. split; discriminate.
-  - unfold truncnormal_sample, truncnormal_support. intros H. inversion H as [? ? Hi | ? ? Hi]; subst.
-    + cbn [in_item le_lo le_hi] in Hi. destruct Hi as [_ Hhi]. apply Hhi. reflexivity.
-    + inversion Hi.
-Qed.
-
+(* ---- TruncNormal ---- *)
 (* what a standardising call would give: (a-mu)/sigma <= z <= (b-mu)/sigma  ==>  a <= mu + sigma z <= b *)
 Theorem truncnormal_standardised_ok (mu sigma a b z : Qc) : 0 < sigma ->
   (a - mu) / sigma <= z -> z <= (b - mu) / sigma -> a <= mu + sigma * z /\ mu + sigma * z <= b.
@@ -264,6 +244,43 @@ Proof.
   - replace b with (mu + (b - mu) / sigma * sigma) by (field; exact Hne).
     apply Qcplus_le_compat; [apply Qcle_refl|]. rewrite (Qcmult_comm sigma z).
     apply Qcmult_le_compat_r; [exact Hhi | apply Qclt_le_weak, Hs].
+Qed.
+
+(* TruncNormal.sample (repaired, /repo 5c6c4c3) passes the STANDARDISED bounds (a-mu)/sigma, (b-mu)/sigma:
+   every sample lies in get_support() = [a, b], for all parameters with sigma = sqrt(sigma2) > 0 *)
+Theorem truncnormal_sampler_support sq env envl z : 0 < sq (env "sigma2") ->
+  desc_std_supp sq env truncnormal_sample z ->
+  in_supp sq env envl truncnormal_support (realise sq env truncnormal_sample z).
+Proof.
+  intros Hs. unfold truncnormal_sample, truncnormal_support, desc_std_supp. cbn [map xeval].
+  rewrite std_supp_truncnorm. intros [Hlo Hhi]. apply Exists_cons_hd.
+  cbn [in_item le_lo le_hi realise oget xeval].
+  replace (1 * (env "mu" + sq (env "sigma2") * z)) with (env "mu" + sq (env "sigma2") * z) by ring.
+  exact (truncnormal_standardised_ok _ _ _ _ _ Hs Hlo Hhi).
+Qed.
+
+(* the OLD rule (before 5c6c4c3), written by hand: truncnorm.rvs(a, b, loc=mu, scale=sqrt(sigma2)) *)
+Definition truncnormal_sample_old : sdesc :=
+  SScipy "truncnorm" [XParam "a"; XParam "b"] (Some (XParam "mu")) (Some (XSqrt (XParam "sigma2"))) None.
+
+Definition tn_env (x : string) : Qc :=
+  if String.eqb x "mu" then mkq 10 1 else if String.eqb x "sigma2" then 1
+  else if String.eqb x "a" then mkq 9 1 else if String.eqb x "b" then mkq 11 1 else 0.
+Definition tn_sq (x : Qc) : Qc := x.      (* sqrt 1 = 1 is the only value used *)
+
+(* TruncNormal(10, 1, 9, 11) under the old rule: standardised bounds 9 and 11, i.e. samples in [19, 21];
+   the standard variate z = 9 is admissible and gives 19, outside get_support() = [9, 11]. *)
+Theorem truncnormal_sampler_old_rule_refuted :
+  exists (sq : Qc -> Qc) (env : string -> Qc) (envl : string -> list Qc) (z : Qc),
+    sq (env "sigma2") * sq (env "sigma2") = env "sigma2" /\ env "a" < env "b" /\
+    desc_std_supp sq env truncnormal_sample_old z /\
+    ~ in_supp sq env envl truncnormal_support (realise sq env truncnormal_sample_old z).
+Proof.
+  exists tn_sq, tn_env, (fun _ => []), (mkq 9 1). split; [reflexivity|]. split; [reflexivity|]. split.
+  - unfold truncnormal_sample_old, desc_std_supp. cbn [map xeval]. rewrite std_supp_truncnorm. split; discriminate.
+  - unfold truncnormal_sample_old, truncnormal_support. intros H. inversion H as [? ? Hi | ? ? Hi]; subst.
+    + cbn [in_item le_lo le_hi] in Hi. destruct Hi as [_ Hhi]. apply Hhi. reflexivity.
+    + inversion Hi.
 Qed.
 
 (* ---- random.choices: the scripted source induces exactly the normalised weights ---- *)
